@@ -47,6 +47,14 @@ def check(ctx, report):
     # SSL 2.0 cipher kinds included): the width / byte order tabulation of the numeric primitives (shared with C11.R1)
     registry_names_exact(ctx, report)
     coded_fields_kept(ctx, report)
+    # a code decodes to the same member whatever was decoded before - also by another factory: no table that outlives the call between
+    # the code and the member (a memo shared by two factories answers one with the other's member); rules shared with C19.R5 / R10
+    from .c19 import module_level_state, stateless_parsing
+    module_level_state(ctx, report, RULE='C10.R12', title='decoding a code point does not depend on code points decoded earlier: no function changes a module level container')
+    stateless_parsing(ctx, report, RULE='C10.R13', allow_memo=True,
+                      modules=('cryptoparser/common/base.py', 'cryptoparser/common/parse.py', 'cryptoparser/tls/ciphersuite.py', 'cryptoparser/tls/algorithm.py',
+                               'cryptoparser/tls/grease.py', 'cryptoparser/tls/version.py', 'cryptoparser/dnsrec/record.py', 'cryptoparser/ssh/subprotocol.py'),
+                      title='no decoder of coded enumerations writes class level state (a memo is accepted only when its key names everything the entry depends on)')
     from .c11 import numeric_widths_shared
     numeric_widths_shared(ctx, report, 'C10.R9', 'code points are read and written as the unsigned big-endian value of their bytes, for every width')
     grease_classification(ctx, report, 'C10.R6')
